@@ -355,6 +355,24 @@ func genC06(c *RunCtx) []*Batch {
 	for _, s := range []string{"", " ", ";", "a +", "* a", "+", "a * !b", "[", "1 + [", "]", "1 + ", "(1", "1)", "f(", "f(1,", "f(,)", "if(true,1)", "if(true,1,2,3)", "!!true", "!", "1 2", "a b", "[1, \"a\"]", "[1 2]", "c_now()", "c_sum(1,)", ",", "(,)", "1 + (2", "!(1", "a && ", "|| a", "a == == b"} {
 		try(s, true, "handwritten")
 	}
+	// every built-in name with 0..3 operands of every kind of literal, bare, under an operator and in infix call syntax:
+	// wrong counts and types must be errors at compile time (constant folding runs them) or at evaluation, never panics
+	operandSets := [][]string{{}, {"1"}, {"\"a\""}, {"true"}, {"(1 2)"}, {"i1"}, {"1", "2"}, {"\"2021-01-02\"", "\"2006-01-02\""}, {"s0", "1"},
+		{"1", "\"x\""}, {"(1 2)", "(3)"}, {"()", "(1 2)"}, {"1", "2", "3"}, {"\"1.2.3\"", "2", "3"}, {"i1", "b0", "s0"}}
+	for _, name := range eval.VerifBuiltinNames() {
+		for _, ops := range operandSets {
+			call := "(" + strings.TrimSpace(name+" "+strings.Join(ops, " ")) + ")"
+			try(call, false, "builtin-arity")
+			try("(= "+call+" 0)", false, "builtin-arity")
+			if len(ops) <= 1 || r.Intn(3) == 0 {
+				iops := make([]string, len(ops))
+				for i, o := range ops {
+					iops[i] = strings.NewReplacer("(", "[", ")", "]").Replace(o)
+				}
+				try(name+"("+strings.Join(iops, ", ")+")", true, "builtin-arity")
+			}
+		}
+	}
 	// large structured inputs: long operator chains (flattened by the optimiser), wide and deep nesting
 	for _, cnt := range []int{126, 127, 128, 129, 200, 255, 256, 257, 400} {
 		for _, op := range []string{"&&", "||", "+", "&", "|"} {
